@@ -489,6 +489,11 @@ unsafe fn do_open(
                     let exists =
                         unsafe { libc::fstatat(dirfd, path, &mut sb, 0) } == 0;
                     if !exists {
+                        *st
+                            .stats
+                            .faults_fired
+                            .entry("Open:Enospc".to_string())
+                            .or_default() += 1;
                         set_errno(libc::ENOSPC);
                         return Some(-1);
                     }
